@@ -111,7 +111,7 @@ async def async_map_unordered(
                 tasks.update(new_tasks)
                 pending.update(new_tasks.keys())
                 t = time.monotonic()
-                start_times = {f: t for f in new_tasks.keys()}
+                start_times.update({f: t for f in new_tasks.keys()})
 
 
 async def async_map_dag(
